@@ -101,20 +101,37 @@ func readGpos5_1(p *parser.Parser, subtablePos int64) (Subtable, error) {
 		if err != nil {
 			return nil, err
 		}
-		ligAttach := make([][]anchor.Table, componentCount)
+		// Each component record is a list of markClassCount anchor offsets,
+		// relative to the beginning of the LigatureAttach table.
+		numOffsets := int(componentCount) * markClassCount
+		if numOffsets > (65536-6-2)/2 {
+			return nil, &parser.InvalidFontError{
+				SubSystem: "sfnt/opentype/gtab",
+				Reason:    "GPOS5.1 table too large",
+			}
+		}
+		anchorOffsets := make([]uint16, numOffsets)
+		for k := range anchorOffsets {
+			anchorOffsets[k], err = p.ReadUint16()
+			if err != nil {
+				return nil, err
+			}
+		}
 
-		for j := 0; j < int(componentCount); j++ {
+		ligAttach := make([][]anchor.Table, componentCount)
+		for j := range ligAttach {
 			row := make([]anchor.Table, markClassCount)
-			for j := range row {
-				if offsets[j] == 0 {
+			for k := range row {
+				offs := anchorOffsets[j*markClassCount+k]
+				if offs == 0 {
 					continue
 				}
-				row[j], err = anchor.Read(p, ligAttachPos+int64(offsets[j]))
+				row[k], err = anchor.Read(p, ligAttachPos+int64(offs))
 				if err != nil {
 					return nil, err
 				}
 			}
-			ligAttach[i] = row
+			ligAttach[j] = row
 		}
 
 		ligArray[i] = ligAttach
